@@ -132,10 +132,69 @@ def surrogate_session(flavour, path):
         return f"raised {type(e).__name__}: {e}"
 
 
+def mqtt_backlog(fmt, before, backlog, workdir):
+    """The thread-based MQTT gateway (its transport has no connection to close, so whatever the poll loop runs is
+    published): `before` id requests handled, `backlog` more queued and not yet handled when the user calls
+    stop(); then the real poll loop gets the processor (it was started before the stop).  Returns (ids
+    published, node ids a fresh start loads, what went wrong or None)."""
+    import os
+    import threading
+    from mysensors.gateway_mqtt import MQTTGateway
+    from . import persist_util as pu
+    path = os.path.join(workdir, f"mqtt-backlog.{fmt}")
+    for p in (path, path + ".bak"):
+        if os.path.exists(p):
+            os.remove(p)
+    pubs = []
+    gw = MQTTGateway(lambda topic, payload, qos, retain: pubs.append((topic, payload)), lambda *a: None,
+                     persistence=True, persistence_file=path, protocol_version="2.2")
+    for _ in range(before):
+        gw.tasks.add_job(gw.logic, stopwin.ID_REQUEST)
+        gw.tasks.transport.send(gw.tasks.run_job())
+    for _ in range(backlog):
+        gw.tasks.transport.recv("/255/255/3/0/3", "", 0)
+    problem = None
+    try:
+        gw.stop()
+    except Exception as e:  # noqa: BLE001
+        problem = f"stop() raised {type(e).__name__}: {e}"
+    poll = threading.Thread(target=gw.tasks._poll_queue, daemon=True)
+    poll.start()
+    poll.join(3.0)
+    if poll.is_alive():
+        problem = problem or "the poll loop is still running three seconds after stop()"
+    ids = [int(payload) for topic, payload in pubs if topic.endswith("/255/255/3/0/4")]
+    err, loaded = pu.fresh_load(path)
+    return ids, (sorted(loaded) if err is None else ["load-raised"]), problem
+
+
+def mqtt_backlog_part(res, tier):
+    import shutil
+    import tempfile
+    work = tempfile.mkdtemp(prefix="verif-c06-")
+    try:
+        for fmt in ("json", "pickle"):
+            for before, backlog in ((0, 1), (2, 0), (2, 3), (1, 1), (0, 40) if tier != "quick" else (0, 5)):
+                ids, in_file, problem = mqtt_backlog(fmt, before, backlog, work)
+                res.evaluations += 1
+                res.count("mqtt-backlog-at-stop")
+                lost = [i for i in ids if i not in in_file]
+                if problem or lost or len(set(ids)) != len(ids):
+                    res.oracle_failures.append({
+                        "key": {"kind": "mqtt-backlog", "what": "problem" if problem else "published-not-saved"},
+                        "replay": {"op": "mqtt-backlog", "fmt": fmt, "before": before, "backlog": backlog},
+                        "what": f"thread-based MQTT gateway, {fmt}: {before} id requests handled, {backlog} more queued when "
+                                f"stop() was called: " + (problem or f"ids {lost} were published but are not in the file "
+                                f"stop() left (published {ids}, file {in_file})")})
+    finally:
+        shutil.rmtree(work, ignore_errors=True)
+
+
 def run(tier, seed, driver):
     res = gwfam.run_family("C06", tier, seed, driver, CFG, relevant)
     stopwin.part(res, "C06", driver, tier)
     unpaired_surrogate_part(res)
+    mqtt_backlog_part(res, tier)
     res.rule = ("histories biased to id requests, node presentations of ids 0..255 (incl. 250..255 to reach the "
                 "allocator bound), save ticks, stop/restart cycles, both formats; non-trivial = at least one id "
                 "response emitted; distinct by op script")
@@ -145,6 +204,17 @@ def run(tier, seed, driver):
 def replay(payload):
     if payload.get("replay", {}).get("op") == "stop-window":
         return stopwin.replay(payload["replay"])
+    if payload.get("replay", {}).get("op") == "mqtt-backlog":
+        import shutil
+        import tempfile
+        r = payload["replay"]
+        work = tempfile.mkdtemp(prefix="verif-c06-")
+        try:
+            ids, in_file, problem = mqtt_backlog(r["fmt"], r["before"], r["backlog"], work)
+        finally:
+            shutil.rmtree(work, ignore_errors=True)
+        print("published ids:", ids, " in the file:", in_file, " problem:", problem)
+        return 1 if problem or any(i not in in_file for i in ids) else 0
     if payload.get("replay", {}).get("op") == "surrogate-text":
         import os
         import shutil
